@@ -68,6 +68,21 @@ def run(run):
     if res.get("outcome") != "ok":
         run.correspondence_break("attack corpus could not be executed", None, result=res)
         return
+    # order-sensitive probes again, each in a runtime of its own (nothing else has been looked at before them), and the whole
+    # corpus once more in reverse order
+    solo = lib.run_impl("c06_probes", [{"names": [n], "_timeout": 120} for n in ("filter-order", "python-builtins", "confirm-db-write")],
+                        shards=3, timeout=400)
+    for n, r in zip(("filter-order", "python-builtins", "confirm-db-write"), solo):
+        if r.get("outcome") == "ok":
+            res["outs"][n + "@fresh-runtime"] = r["outs"].get(n, "ok")
+            for k, v in r["effects"].items():
+                res["effects"][k] = res["effects"].get(k) or v
+    rev = lib.run_impl("c06_probes", [{"_timeout": 300, "reverse": True}], shards=1, timeout=400)[0]
+    if rev.get("outcome") == "ok":
+        for n, o in rev["outs"].items():
+            res["outs"][n + "@reverse-order"] = o
+        for k, v in rev["effects"].items():
+            res["effects"][k] = res["effects"].get(k) or v
     for name, out in sorted(res["outs"].items()):
         run.count(["probe", name], True, "probe")
         if out.startswith("ESCAPE:"):
